@@ -45,6 +45,9 @@ type World struct {
 	Names map[string]string
 	// the denom USDC has on this chain (set by SeedStandardWith; "uusdc" unless the world variant says otherwise)
 	USDC string
+	// NoVaultBond: the standard world is seeded WITHOUT the two initial deposits into the lending vault (a chain on which nobody has
+	// bonded yet: the stablestake share denom has no committed amount)
+	NoVaultBond bool
 }
 
 type TxReq struct {
